@@ -259,15 +259,32 @@ def _value_const_ints(val: Optional[ir.Value]) -> Optional[Tuple[int, ...]]:
 
 
 def _shapes_compatible(a: Optional[ir.Value], b: Optional[ir.Value]) -> bool:
-    ta, tb = _shape_tuple(a), _shape_tuple(b)
-    if ta is None or tb is None or len(ta) != len(tb):
+    """Return whether two annotated shapes are provably the same at run time.
+
+    Used for Reshape pairs, which preserve the element count: equal integers and
+    identical symbols match; at most one remaining (unknown or differently named)
+    position is tolerated because it is then determined by the other dimensions.
+    """
+    da = _shape_dims_seq(a.shape) if a is not None else None
+    db = _shape_dims_seq(b.shape) if b is not None else None
+    if da is None or db is None or len(da) != len(db):
         return False
-    for da, db in zip(ta, tb):
-        if da == -1 or db == -1:
+    unresolved = 0
+    for dim_a, dim_b in zip(da, db):
+        a_int = isinstance(dim_a, (int, np.integer))
+        b_int = isinstance(dim_b, (int, np.integer))
+        if a_int and b_int:
+            if int(dim_a) != int(dim_b):
+                return False
+            if int(dim_a) == 0:
+                unresolved += 1
             continue
-        if da != db:
-            return False
-    return True
+        if not a_int and not b_int:
+            tok_a, tok_b = _dim_token(dim_a), _dim_token(dim_b)
+            if tok_a == tok_b and tok_a[0] == "value" and tok_a[1] is not None:
+                continue
+        unresolved += 1
+    return unresolved <= 1
 
 
 # ---------------- Attr access ----------------
